@@ -7,13 +7,15 @@
    what follows its return is the whole ordinary acquire - test and take in ONE step (Lock.step .. (AcqBegin t)).
    `pinned = true` is the order before the fix (test free?, check, take): a call that found the lock free is committed
    when the check yields and takes the lock without looking again when it returns.
-   All other ops are those of Lock.v, unchanged (a spinning task can do nothing else).  Definitions only. *)
+   All other ops are those of Lock.v, unchanged; for a spinning task only a native Task.cancel() (sets `_must_cancel`)
+   and its own step are enabled (QA audit: formerly every op of a spinning task was refused).  Definitions only. *)
 From AV Require Import Base Lock.
 
 Record est := emk {
   lock : Lock.st;
   spin : tid -> bool;            (* inside acquire(), suspended in checkpoint_if_cancelled() *)
-  committed : tid -> bool        (* pinned only: passed the `free?` test before the check *)
+  committed : tid -> bool;       (* pinned only: passed the `free?` test before the check *)
+  ckmust : tid -> bool           (* Task._must_cancel of a spinning task (a native Task.cancel() reached it at its sleep(0)) *)
 }.
 
 Inductive eop :=
@@ -22,7 +24,11 @@ Inductive eop :=
 | SpinCancel (t : tid)           (* the cancellation is delivered: the call raises *)
 | SpinReturn (t : tid).          (* the check returns normally after its yield *)
 
-Definition einit (fa : bool) : est := emk (Lock.init fa) (fun _ => false) (fun _ => false).
+Definition einit (fa : bool) : est := emk (Lock.init fa) (fun _ => false) (fun _ => false) (fun _ => false).
+
+(* the spinning call of t is over: every flag of it is cleared *)
+Definition unspin (s : est) (l : Lock.st) (t : tid) : est :=
+  emk l (upd (spin s) t false) (upd (committed s) t false) (upd (ckmust s) t false).
 
 Definition op_tid (o : Lock.op) : tid :=
   match o with AcqBegin t | AcqNowait t | Release t | Resume t | Cancel t => t end.
@@ -35,25 +41,35 @@ Definition take_blind (l : Lock.st) (t : tid) : Lock.st * res :=
 Definition estep (pinned : bool) (s : est) (o : eop) : est * res :=
   match o with
   | L o =>
-      if spin s (op_tid o) then (s, RRejected) else
-      let '(l', r) := Lock.step (lock s) o in (emk l' (spin s) (committed s), r)
+      if spin s (op_tid o) then
+        (* what can be done TO a task that sits in its entry check: a native Task.cancel() (sleep(0) has no waiter future:
+           `_must_cancel` is set) and its step (raises with `_must_cancel`, otherwise the check finds the cancellation still
+           pending and yields again); everything else is not enabled *)
+        match o with
+        | Cancel t => (emk (lock s) (spin s) (committed s) (upd (ckmust s) t true), RNone)
+        | Resume t => if ckmust s t then (unspin s (lock s) t, RCancelled) else (s, RBlocked)
+        | _ => (s, RRejected)
+        end
+      else
+      let '(l', r) := Lock.step (lock s) o in (emk l' (spin s) (committed s) (ckmust s), r)
   | EnterCancelled t =>
       if spin s t || negb (is_idle (phase_of (lock s) t)) then (s, RRejected) else
       if pinned then
         match owner (lock s), waiters (lock s) with
-        | None, [] => (emk (lock s) (upd (spin s) t true) (upd (committed s) t true), RBlocked)
+        | None, [] => (emk (lock s) (upd (spin s) t true) (upd (committed s) t true) (ckmust s), RBlocked)
         | _, _ =>
             (* the old contended path had no check at all: the call proceeds as in a live scope *)
-            let '(l', r) := Lock.step (lock s) (AcqBegin t) in (emk l' (spin s) (committed s), r)
+            let '(l', r) := Lock.step (lock s) (AcqBegin t) in (emk l' (spin s) (committed s) (ckmust s), r)
         end
-      else (emk (lock s) (upd (spin s) t true) (committed s), RBlocked)
+      else (emk (lock s) (upd (spin s) t true) (committed s) (ckmust s), RBlocked)
   | SpinCancel t =>
-      if spin s t then (emk (lock s) (upd (spin s) t false) (upd (committed s) t false), RCancelled)
+      if spin s t then (unspin s (lock s) t, RCancelled)
       else (s, RRejected)
   | SpinReturn t =>
       if negb (spin s t) then (s, RRejected) else
+      if ckmust s t then (unspin s (lock s) t, RCancelled) else      (* the step raises at the sleep(0) instead *)
       let '(l', r) := if committed s t then take_blind (lock s) t else Lock.step (lock s) (AcqBegin t) in
-      (emk l' (upd (spin s) t false) (upd (committed s) t false), r)
+      (unspin s l' t, r)
   end.
 
 (* ---- codec: the codes of Lock.v (0-4) plus 7 EnterCancelled, 8 SpinCancel, 9 SpinReturn ---- *)
